@@ -15,6 +15,7 @@ import (
 	"bytes"
 	"encoding/base64"
 	"encoding/json"
+	"errors"
 	"fmt"
 	"os"
 	"sort"
@@ -105,7 +106,13 @@ func (c *c05Run) respawn() error {
 				map[string]any{"stream": "warm-up", "route": c05RouteNames[route], "shape": vc.Shape, "request": c05Q(vc.Req), "outcome": o.Class, "panic": o.Detail})
 		}
 		if dead {
-			return fmt.Errorf("the child died during the warm-up push of %s: %s", c05RouteNames[route], o.Detail)
+			// a WELL-FORMED push ends the process: every further child would die the same way
+			if o.Class == "crash" {
+				c.r.Violate("C05/crash/"+c05RouteNames[route]+"/valid-push",
+					fmt.Sprintf("a well-formed %s push (%s %s, %d bytes) killed the writer process: %s at %s", c05RouteNames[route], vc.Req.Method, vc.Req.Path, len(vc.Req.Body), o.Detail, o.Frame),
+					map[string]any{"stream": "warm-up", "route": c05RouteNames[route], "shape": vc.Shape, "request": c05Q(vc.Req), "outcome": "crash", "panic": o.Detail, "frame": o.Frame})
+			}
+			return fmt.Errorf("%w: the child died during the warm-up push of %s: %s", errC05Fatal, c05RouteNames[route], o.Detail)
 		}
 	}
 	if _, err := c.p.Blocks(); err != nil {
@@ -213,6 +220,17 @@ func (c *c05Run) postBatch() error {
 			"a block handed to the database client has columns of different lengths: "+nr,
 			map[string]any{"stream": "post-batch", "block": nr, "batch": c.batch})
 	}
+	for _, rg := range b.Ragged {
+		tp := rg
+		if i := strings.Index(rg, ":"); i > 0 {
+			tp = rg[:i]
+		}
+		// the oracle of parser_rect_*: a request object a real parser emitted, seen at the door of the insert service
+		c.r.Violate("C05/ragged-request/"+tp,
+			"a parser handed the insert service a request whose per-row arrays differ in length: "+rg,
+			c.raggedReplay(rg))
+	}
+	c.r.CountN("requests-inspected", b.Requests)
 	c.r.CountN("blocks-captured", b.Blocks)
 	for t, n := range b.Rows {
 		c.r.CountN("rows:"+t, n)
@@ -277,6 +295,30 @@ func (c *c05Run) postBatch() error {
 	c.r.Count("census-ok")
 	c.batch = nil
 	return nil
+}
+
+// raggedReplay: the request of the batch that produces the ragged request object, found by replaying the batch one
+// request at a time in the running child (the fake database refuses a ragged block, nothing is stored)
+func (c *c05Run) raggedReplay(what string) map[string]any {
+	rep := map[string]any{"stream": "post-batch", "ragged": what}
+	for _, s := range c.batch {
+		body, _ := base64.StdEncoding.DecodeString(s.Req.BodyB64)
+		if s.Req.BodyLen > 0 && len(body) == 0 {
+			continue
+		}
+		if _, dead := c.p.Do(c05Request{s.Req.Method, s.Req.Path, s.Req.Headers, body}, c.deadline); dead {
+			if err := c.respawn(); err != nil {
+				break
+			}
+			continue
+		}
+		if b, err := c.p.Blocks(); err == nil && len(b.Ragged) > 0 {
+			rep["route"], rep["shape"], rep["request"], rep["stream"] = s.Route, s.Shape, s.Req, s.Stream
+			return rep
+		}
+	}
+	rep["batch"] = c.batch
+	return rep
 }
 
 // ---- raw byte/mutation stream (fuzzing): liveness only
@@ -496,21 +538,36 @@ func c05Replay(r *h.Result, path string, deadline int) error {
 	return nil
 }
 
+// errC05Fatal: the run cannot go on (a well-formed push kills every child); the violation is recorded
+var errC05Fatal = errors.New("C05 run ended early")
+
 func c05(r *h.Result, rng *h.Rng, tier string, replay string) error {
+	err := c05Main(r, rng, tier, replay)
+	if errors.Is(err, errC05Fatal) && len(r.Violations) > 0 {
+		r.Notes = append(r.Notes, "run ended early: "+err.Error())
+		return nil
+	}
+	return err
+}
+
+func c05Main(r *h.Result, rng *h.Rng, tier string, replay string) error {
 	deadline := 5000
 	if replay != "" {
 		return c05Replay(r, replay, deadline)
 	}
 	nStruct, nRaw, batchSize, bombs := 1100, 4000, 40, false
 	nPre, nDecLen := 300, 3000
+	nRect, nRectBig, nParamsCtx, nParamsHead := 520, 12, 400, 700
 	oddPct := 65
 	switch tier {
 	case "thorough":
 		nStruct, nRaw, bombs = 22000, 100000, true
 		nPre, nDecLen = 6000, 100000
+		nRect, nRectBig, nParamsCtx, nParamsHead = 13000, 120, 20000, 9000
 	case "search":
 		nStruct, nRaw, bombs = 11000, 30000, true
 		nPre, nDecLen = 3000, 20000
+		nRect, nRectBig, nParamsCtx, nParamsHead = 6500, 60, 5000, 4000
 		oddPct = 90
 	}
 	// staleness of the hand-made fault placement (Gen.BodyHashes vs the recorded hashes)
@@ -540,6 +597,7 @@ func c05(r *h.Result, rng *h.Rng, tier string, replay string) error {
 	r.Notes = append(r.Notes, "PARTIAL: the theorems are about the model (fault placement, goroutine of each site, tamePanic protocol, waiting logic); scheduler, memory exhaustion, loops inside third-party parsers and goroutine leaks of the real runtime are only explored by this child-process run (support, not an obligation)")
 	r.Rule = "structured: per route documents with 65% ill-shaped variants (dropped field, changed JSON kind, emptied array, wrong id length, absent optional message, truncated, oversize, bad encoding), status compared with the model; non-trivial = not valid by construction; distinct by (route, shape, status). raw: byte mutations of route bodies under gzip/snappy/multipart/ndjson/query-parameter changes, liveness only (fuzzing)"
 
+	r.Rule += "; rect: bodies exercising every decoder's row bookkeeping (oracle only: every request object handed to an insert service has per-row arrays of one length); params-ctx / params-head: header and query-parameter values around every case of the parsing code, compared with the model"
 	r.Rule += "; " + c05AllocRule
 	c := &c05Run{r: r, deadline: deadline, pushRng: rng.Fork()}
 	if err := c.respawn(); err != nil {
@@ -622,6 +680,19 @@ func c05(r *h.Result, rng *h.Rng, tier string, replay string) error {
 		return err
 	}
 	if err := c.preStream(rng.Fork(), nPre, bombs, batchSize); err != nil {
+		return err
+	}
+
+	// ---- what the parsers emit: the oracle of parser_rect_* (c05_rect.go)
+	if err := c.rectStream(rng.Fork(), nRect, nRectBig, batchSize); err != nil {
+		return err
+	}
+
+	// ---- headers and query parameters (c05_params.go)
+	if err := c05ParamsCtx(r, rng.Fork(), nParamsCtx); err != nil {
+		return err
+	}
+	if err := c.paramsHeadStream(rng.Fork(), nParamsHead, batchSize); err != nil {
 		return err
 	}
 
